@@ -50,6 +50,9 @@ pub fn run(ctx: &mut Ctx, dom: &str, a: &[Arg]) {
             let tt = TagType::from(x);
             ctx.ln("tt", format!("{:?}", tt));
             ctx.ln("tt_back", format!("{}", u32::from(tt)));
+            ctx.ln("tt_val", format!("{}", tt.val()));
+            ctx.ln("id_new", format!("{}", u32::from(TagTypeId::new(x))));
+            ctx.ln("id_dbg", format!("{:?}", TagTypeId::new(x)));
             ctx.ln("id_back", format!("{}", u32::from(TagTypeId::from(x))));
             ctx.ln("tt_via_id", format!("{:?}", TagType::from(TagTypeId::from(x))));
             ctx.ln("id_via_tt", format!("{}", u32::from(TagTypeId::from(TagType::from(x)))));
@@ -66,7 +69,9 @@ pub fn run(ctx: &mut Ctx, dom: &str, a: &[Arg]) {
             ctx.ln(
                 "eq",
                 format!(
-                    "ty_id={} id_ty={} id_u32={} u32_id={} ty_u32={} u32_ty={} aid_aty={} aty_aid={}",
+                    "ty_ty={} id_id={} ty_id={} id_ty={} id_u32={} u32_id={} ty_u32={} u32_ty={} aid_aty={} aty_aid={}",
+                    tx == ty,
+                    ix == iy,
                     tx == iy,
                     ix == ty,
                     ix == y,
@@ -124,6 +129,12 @@ pub fn run(ctx: &mut Ctx, dom: &str, a: &[Arg]) {
                 }
             });
             ctx.ln("fb_type", res_str(r));
+        }
+        "pstr" => {
+            // the public parse_slice_as_string on an arbitrary byte slice, flush against a guard page
+            let g = Guarded::new(a[0].b(), 0, ctx.place_end);
+            let r = guard(|| multiboot2::parse_slice_as_string(g.slice()));
+            ctx.ln("pstr", crate::dom_mbi::s_str(&g, r));
         }
         "magic" => {
             ctx.ln("magic", format!("mbi={} hdr={}", multiboot2::MAGIC, multiboot2_header::MAGIC));
